@@ -150,6 +150,17 @@ Definition pure (p : list stmt) (out : aexpr) : bool :=
   | None => false
   end.
 
+(* ------------------------------------------------------------------ what an accepted method may write *)
+(* The only slot of a creator (or of a column expression reachable from it) that an entry method
+   may overwrite is the dialect slot `....sql_dialect`; "$observed" is the model's own log of reads.
+   `writes_only_dialect_slots p` is evaluated on every regenerated program: together with the frame
+   theorem it gives "every other attribute - everything the user can see - keeps its value". *)
+Fixpoint ends_with (suf s : string) : bool :=
+  String.eqb s suf || match s with String _ r => ends_with suf r | EmptyString => false end.
+Definition is_dialect_slot (a : string) : bool :=
+  String.eqb a "$observed" || String.eqb a "sql_dialect" || ends_with ".sql_dialect" a.
+Definition writes_only_dialect_slots (p : list stmt) : bool := forallb is_dialect_slot (writes p).
+
 (* ------------------------------------------------------------------ effect summary (reporting) *)
 Inductive wclass := SetFromArg | SelfDependent | Unknown.
 
